@@ -602,6 +602,12 @@ Definition expected_atail_other : list string := ["cgi_diffusion_address"].
 Definition addr_tails_ok (fs : list (string * string)) (t : list atail) : bool :=
   forallb (atail_ok fs) t && list_eqb (atail_other_names t) expected_atail_other && Nat.leb 15 (List.length t).
 
+(* what is ordered by name when a file is read: exactly the two arrays [cgns_sorted] says, with strcmp *)
+Definition expected_sort_calls : list string :=
+  ["cgi_read_base: base -> nzones / sort_childnode_names"; "cgi_read_base: base -> npzones / sort_childnode_names"].
+Definition sorting_ok (calls : list string) (cmp : string) (callers : list string) : bool :=
+  list_eqb calls expected_sort_calls && String.eqb cmp "return ( strcmp ( p1 -> name , p2 -> name ) )" && list_eqb callers [].
+
 (* diagnostics for the report *)
 Definition bad_dblocks (ss : Goto.structs_t) (fs : list (string * string)) (nd : list ndrow) (gt : list Goto.brow)
            (dt : list dblock) : list string :=
